@@ -12,7 +12,7 @@ ResT(db, r, relk, tolk) == [db |-> db, r |-> r, dv |-> {}, rel |-> relk, tol |->
 WithDv(res, id) == [res EXCEPT !.dv = @ \cup {id}]
 
 \* a deadline that has already passed means the key does not exist
-PutStrAt(d, k, s, e, now) == IF e # 0 /\ e <= now THEN Del(d, k) ELSE Put(d, k, VStr(s, e))
+PutStrAt(d, k, s, e, now) == IF e # 0 /\ e <= now /\ ~Real THEN Del(d, k) ELSE Put(d, k, VStr(s, e))
 
 (* expiry options shared by SET and GETEX: EX s | PX ms | EXAT ts | PXAT ms-ts | KEEPTTL | PERSIST
    returns [ok, kind \in {"none","rel","sec","abs","keep","persist"}, at] *)
